@@ -95,7 +95,11 @@ def run_arc(ck, case, reqs, pending):
         lam = 7.25
         be3, *_k3 = make_big_edge([(lam * x, lam * y) for x, y in pts])
         tot_sc = float(be3.calculate_total_curvature(normalized=False))
-        if abs(tot_sc - tot) > 1e-9 * abs(tot):
+        # second differences of coordinates lose digits when the points are close together relative to their distance from the
+        # origin: the comparison is conditioned by (|coords| / shortest segment)^2
+        hmin = min(math.hypot(pts[i + 1][0] - pts[i][0], pts[i + 1][1] - pts[i][1]) for i in range(len(pts) - 1))
+        cmax = max(max(abs(x), abs(y)) for x, y in pts)
+        if abs(tot_sc - tot) > max(1e-9, 4e-16 * (cmax / max(hmin, 1e-300)) ** 2) * abs(tot):
             ck.fail("the turning estimate is unchanged by uniform scaling", f"{tot} vs scaled {tot_sc}", case)
         if case["spacing"] == "uniform":
             want = (n - 2) / (n - 1) * case["theta"]
